@@ -94,7 +94,8 @@ def _state(p, s):
 
 
 def unit_id(p, i, u, district_gut):
-    tag = f"P{p:02d}u{i}"
+    # the precinct part of an id may itself contain separators (split precincts): every other unit gets one
+    tag = f"P{p:02d}u{i}" if (i + p) % 2 == 0 else f"P{p:02d}_u{i}_b"
     if u["inBase"]:
         co, di = u["county"], u["district"]
     else:
